@@ -160,6 +160,8 @@ def arange (n : Int) : List Int := range n
 /-- `np.where(cond, a, b)` element-wise with scalars broadcast by the translator -/
 def where_ (c : List Bool) (a b : List Int) : List Int :=
   (List.zip c (List.zip a b)).map (fun t => if t.1 then t.2.1 else t.2.2)
+/-- `np.cumsum(a)` -/
+def cumsum (a : List Int) : List Int := (a.foldl (fun (acc : List Int × Int) x => (acc.1 ++ [acc.2 + x], acc.2 + x)) ([], 0)).1
 /-- `len(np.unique(a))` -/
 def uniqueCount (a : List Int) : Int := (a.eraseDups.length : Int)
 /-- `bool(np.all(mask))` -/
